@@ -4,6 +4,8 @@ use crate::tape::Tape;
 
 pub mod c01;
 pub mod c04;
+pub mod c06;
+pub mod c10;
 pub mod c15;
 pub mod flow;
 pub mod c16;
@@ -23,6 +25,8 @@ pub fn all() -> Vec<Prop> {
     vec![
         Prop { id: "C01", level: "exploration", case: c01::case, run: c01::run, replay_reps: 1 },
         Prop { id: "C04", level: "exploration", case: c04::case, run: c04::run, replay_reps: 4 },
+        Prop { id: "C06", level: "exploration", case: c06::case, run: c06::run, replay_reps: 4 },
+        Prop { id: "C10", level: "exploration", case: c10::case, run: c10::run, replay_reps: 4 },
         Prop { id: "C15", level: "exploration", case: c15::case, run: c15::run, replay_reps: 1 },
         Prop { id: "C16", level: "exploration", case: c16::case, run: c16::run, replay_reps: 1 },
         Prop { id: "C19", level: "exploration", case: c19::case, run: c19::run, replay_reps: 1 },
